@@ -247,12 +247,17 @@ def r4(db, rep):
             rep.analysis_broken("DNS::%s vanished" % name)
             continue
         f = fs[0]
-        calls = [n for n in facts.fn_nodes(f) if n["k"] == "CXXMemberCallExpr" and n.get("cname") == "convert_records"]
-        if len(calls) != 1:
-            rep.violation("R4-sections", name, facts.loc(f), "expected one convert_records call, found %d" % len(calls))
+        # the convert_records call of this getter - its own, or the one in a shared helper it calls (arguments then read in
+        # the getter's terms: the helper's parameters replaced by what the getter passes)
+        hits = facts.lifted_sites(db, f, lambda fn, n, txt: n["k"] == "CXXMemberCallExpr" and n.get("cname") == "convert_records", must=False)
+        if len(hits) != 1:
+            rep.violation("R4-sections", name, facts.loc(f), "expected one convert_records call, found %d" % len(hits))
             continue
-        a = cfg.args(calls[0])
-        s0, s1, s3 = facts.expr_str(a[0]), facts.expr_str(a[1]), facts.expr_str(a[3])
+        site, call, hfn = hits[0]
+        calls = [site]
+        txt = facts.lifted_txt(db, f, site, hfn)
+        a = cfg.args(call)
+        s0, s1, s3 = [txt(facts.inline_locals(hfn, x, all_types=False)) for x in (a[0], a[1], a[3])]
         ok = s0.endswith("+ %s)" % lo) and s1.endswith("+ %s)" % hi) and cnt in s3 and "records_data_" in s0 and "records_data_" in s1
         if ok:
             rep.ok("R4-sections", name, facts.loc(f, calls[0]), "reads [%s, %s), at most %s() records" % (lo, hi, cnt))
